@@ -2,6 +2,12 @@ package chainsim
 
 import (
 	"fmt"
+	"sort"
+	"strconv"
+	"strings"
+
+	"github.com/pokt-network/pocket-core/app"
+	govTypes "github.com/pokt-network/pocket-core/x/gov/types"
 
 	"github.com/pokt-network/pocket-core/codec"
 	abci "github.com/tendermint/tendermint/abci/types"
@@ -11,16 +17,108 @@ type lifecycle struct{}
 
 func newLifecycle() *lifecycle { return &lifecycle{} }
 
-
-
 func (s *Sim) checkOwnTx(b *blockObs, i int, tx []byte, r abci.ResponseDeliverTx, before, after *Dump, diff []Change) {
 }
 
+// ---------------------------------------------------------------- C37 feature upgrades
 
+// parseFeatures returns the schedule a feature list denotes (later entries win), whether every
+// entry is well formed and whether a key occurs twice.
+func parseFeatures(list []string) (map[string]int64, bool, bool) {
+	m := map[string]int64{}
+	ok := true
+	dup := false
+	for _, f := range list {
+		kv := strings.Split(f, ":")
+		if len(kv) != 2 {
+			ok = false
+			continue
+		}
+		h, err := strconv.ParseInt(kv[1], 10, 64)
+		if err != nil {
+			ok = false
+			continue
+		}
+		if _, seen := m[kv[0]]; seen {
+			dup = true
+		}
+		m[kv[0]] = h
+	}
+	return m, ok, dup
+}
 
-// checkUpgradeGlobals (C37): the activation schedule a restarted node derives from state equals
-// what the chain scheduled.
+func mapsEqual(a, b map[string]int64) bool {
+	if len(a) != len(b) {
+		return false
+	}
+	for k, v := range a {
+		if w, ok := b[k]; !ok || w != v {
+			return false
+		}
+	}
+	return true
+}
+
+// schedule returns the model schedule (lazily initialised from the genesis configuration).
+func (s *Sim) schedule() map[string]int64 {
+	if s.sched == nil {
+		s.sched = map[string]int64{}
+		for k, v := range s.cfg.Features {
+			s.sched[k] = v
+		}
+	}
+	return s.sched
+}
+
+// checkUpgradeTx judges an upgrade transaction signed by the owner.
+func (s *Sim) checkUpgradeTx(t *txCtx) {
+	rec := t.rec
+	var stored govTypes.Upgrade
+	raw, ok := t.va.Params["gov/upgrade"]
+	if !ok || govTypes.ModuleCdc.UnmarshalJSON([]byte(raw), &stored) != nil {
+		s.violate("C37", "stored-upgrade-unreadable", "stored", fmt.Sprintf("height %d: gov/upgrade is %q after upgrade id %d", t.h, raw, rec.Step.ID))
+		return
+	}
+	want := map[string]int64{}
+	for k, v := range s.schedule() {
+		want[k] = v
+	}
+	named, wellFormed, _ := parseFeatures(rec.Step.Upgrade.Features)
+	if t.res.Code == 0 && wellFormed {
+		for k, v := range named {
+			want[k] = v
+		}
+		s.sched = want
+		s.res.Probe("feature_upgrade_accepted")
+	}
+	got, syntaxOK, dup := parseFeatures(stored.Features)
+	if !syntaxOK || dup || !sort.StringsAreSorted(stored.Features) {
+		s.violate("C37", "stored-feature-list-not-canonical", "stored", fmt.Sprintf("height %d: stored feature list %v (duplicates or unsorted)", t.h, stored.Features))
+	}
+	if !mapsEqual(got, want) {
+		s.violate("C37", "stored-schedule-vs-scheduled", "stored", fmt.Sprintf("height %d: after upgrade id %d (code %d) naming %v the stored schedule is %v, scheduled so far %v", t.h, rec.Step.ID, t.res.Code, rec.Step.Upgrade.Features, stored.Features, want))
+	}
+	s.checkUpgradeGlobals(fmt.Sprintf("after upgrade id %d", rec.Step.ID))
+	s.res.Case(fmt.Sprintf("upgrade/n=%d/code=%v", len(named), t.res.Code == 0))
+}
+
+// checkUpgradeGlobals (C37): the activation schedule the running (or restarted) node works with
+// equals what the chain scheduled, and the activation predicates switch exactly at the heights.
 func (s *Sim) checkUpgradeGlobals(when string) {
-	_ = fmt.Sprint
-	_ = codec.UpgradeHeight
+	want := s.schedule()
+	if !mapsEqual(codec.UpgradeFeatureMap, want) {
+		s.violate("C37", "node-schedule-vs-scheduled", strings.SplitN(when, " ", 2)[0], fmt.Sprintf("%s at height %d the node's activation schedule is %v, scheduled %v", when, s.drv.Height, codec.UpgradeFeatureMap, want))
+		return
+	}
+	cdc := app.Codec()
+	for k, h := range want {
+		for _, probe := range []int64{h - 1, h, h + 1} {
+			if probe < 1 {
+				continue
+			}
+			if got := cdc.IsAfterNamedFeatureActivationHeight(probe, k); got != (probe >= h) {
+				s.violate("C37", "activation-predicate", "predicate", fmt.Sprintf("%s: feature %s scheduled at %d reads active=%v at height %d", when, k, h, got, probe))
+			}
+		}
+	}
 }
